@@ -56,16 +56,17 @@ def jobs(tier, seed):
     if tier == "thorough":
         cases = [(d, s) for d in range(64) for s in (0, 1)]
     else:
-        sq = [35] + rnd.sample(POOL[1:], 2)
-        cases = [(d, rnd.randrange(2)) for d in sq] + [(35 ^ 56, 1)]
+        cases = [(35, 0), (rnd.choice(POOL[1:]), rnd.randrange(2)), (35 ^ 56, 1)]
     if os.environ.get("C20_CASES"):
         cases = [(int(x.split(":")[0]), int(x.split(":")[1])) for x in os.environ["C20_CASES"].split(",")]
     js = []
     for d, s_ in cases:
         for kind in ("basic", "swap"):
-            name, src = inst(kind, n, d, s_)
-            js.append(Job(name, f"SEE {kind}: all positions of <= {n} men, all non-ep captures on {SQN(d)} by {'white' if s_ == 0 else 'black'}", gen=src, timeout=t, mem_gb=24,
-                          checks="functional", witness=False, params={"max_men": n, "target": SQN(d), "white_to_move": s_ == 0}, min_covers=2))
+            # the three-clause harness runs see() twice (mirror) and is ~2.5x dearer: one man fewer in quick
+            nn = n - 1 if (kind == "basic" and tier != "thorough" and not os.environ.get("C20_MEN")) else n
+            name, src = inst(kind, nn, d, s_)
+            js.append(Job(name, f"SEE {kind}: all positions of <= {nn} men, all non-ep captures on {SQN(d)} by {'white' if s_ == 0 else 'black'}", gen=src, timeout=t, mem_gb=24,
+                          checks="functional", witness=False, params={"max_men": nn, "target": SQN(d), "white_to_move": s_ == 0}, min_covers=2))
     return js
 
 
